@@ -1,14 +1,13 @@
 #!/bin/bash
-# runbenign.sh <patch> : all 20 checks must pass (exit 0) on a scratch worktree with the behaviour-preserving patch applied
+# runbenign.sh <ABSOLUTE patch path> : all 20 checks must pass (exit 0) on a scratch worktree with the
+# behaviour-preserving patch applied.  One process decides all 20 properties (one load of the program).
 P=$1
-WT=/tmp/runbenign.$$
+WT=$(mktemp -d /tmp/runbenign.XXXXXX); rmdir $WT
 git -C /repo worktree add -q --detach $WT HEAD || exit 9
-trap 'git -C /repo worktree remove --force $WT >/dev/null 2>&1' EXIT
+trap 'git -C /repo worktree remove --force $WT >/dev/null 2>&1; rm -f $WT.log' EXIT
 (cd $WT && (git apply $P 2>/dev/null || git apply --3way $P 2>/dev/null)) || { echo "$(basename $(dirname $P))/$(basename $P): APPLY FAILED"; exit 3; }
-bad=""
-for p in $(seq -w 1 20); do
-  /verif/bin/lispcheck -prop C$p -repo $WT -evidence-dir "" > /tmp/runbenign.$$.log 2>&1; rc=$?
-  if [ $rc -ne 0 ]; then bad="$bad C$p($rc)"; grep "violated:\|UNDECIDED" /tmp/runbenign.$$.log | sed "s#$WT/##g" | cut -c1-230 | head -4; fi
-done
-rm -f /tmp/runbenign.$$.log
-echo "$(basename $(dirname $P))/$(basename $P): ${bad:-all checks pass}"
+/verif/bin/lispcheck -prop all -repo $WT -evidence-dir "" > $WT.log 2>&1; rc=$?
+bad=$(grep -o "^VIOLATION property=C[0-9]*\|^UNDECIDED property=C[0-9]*" $WT.log | sed 's/property=//' | sort -u | tr '\n' ' ')
+if [ $rc -ne 0 ]; then grep "violated:\|UNDECIDED\|undecided:" $WT.log | sed "s#$WT/##g" | cut -c1-260 | head -8; fi
+echo "$(basename $(dirname $P))/$(basename $P): rc=$rc ${bad:-all checks pass}"
+exit $rc
